@@ -7,7 +7,8 @@ from tmpl import *
 from guards import is_int, is_call, find_calls
 
 H = r'⟨H(\d+)⟩'
-VIS = r'ALT(\d+)\{  \|\| pub \}'
+AT = r'(?:# \[ (?!repr|derive|doc |default)(?:[^\[\]]|\[[^\[\]]*\])* \] )*'      # harmless extra attributes (#[allow(..)], #[inline], ..)
+VIS = AT + r'ALT(\d+)\{  \|\| pub \}'
 DOCS = r'ALT\d+\{  \|\| REP(\d+)\( ⟨E\d+:# \[ doc = ⟨H\d+⟩ \]⟩ \)\* \}'
 
 WRAP = re.compile(r'(rust::str_to_ident|rust::sa_type_to_syn_type|rust::hex_literal|convert::Into::into|::into|Deref::deref|deref|as_str|as_deref|ItemPathSegment::as_str|'
